@@ -7,7 +7,7 @@ CONSTANTS
   UseSw = TRUE
   UseFs = TRUE
   AllowRestart = TRUE
-  InitSw = {"GOOD", "UNUSED"}
+  InitSw = {"GOOD"}
 VIEW View
 INVARIANT InvNeverOverdue
 INVARIANT InvFixClock
@@ -24,4 +24,5 @@ PROPERTY RestoreInWindow
 PROPERTY OsScanInWindow
 PROPERTY InstantOnlyAtZero
 PROPERTY OffTicksChangeNothing
+
 CHECK_DEADLOCK TRUE
